@@ -127,9 +127,22 @@ def scen_c16(r):
     n = len(rdefs)
     sqlr = r.choice([0] + list(range(2, 2 + n)) + ([1] if r.random() < 0.1 else []))
     dbmlr = r.choice([1] + list(range(2, 2 + n)))
-    g, info = gen_api.gen_database(r, nasty=0.0, renderers=(sqlr, dbmlr))
+    g, info = gen_api.gen_database(r, nasty=0.0, renderers=(sqlr, dbmlr), size=r.choice([None, None, None, 0]))
     sc = Scenario(g, info, rdefs)
     db = info['db']
+    if not info['tables']:
+        # a database without tables still configures the renderers of its other elements
+        e = g.emit(Op(17, 'lonely', [V('str', 'a')], 'public', None))
+        info['added'][e] = g.emit(Op(30, 0, db, e))
+        info['enums'].append(e)
+        s_ = g.emit(Op(18, 'lonely note', 'text'))
+        info['added'][s_] = g.emit(Op(30, 0, db, s_))
+        info['stickies'].append(s_)
+    twins = []
+    for rf in info['refs'][:2]:
+        op = g.ops[rf]
+        tw = g.emit(Op(15, *op.args))
+        twins.append((rf, tw, g.emit(Op(84, rf, tw))))
     g.emit(Op(82))
     d0 = len(g.ops) - 1
     # element renderings in random order, twice, interleaved with database renderings
@@ -142,10 +155,43 @@ def scen_c16(r):
         first[(e, code)] = g.emit(Op(code, e))
     g.emit(Op(82))
     sc.same(len(g.ops) - 1, d0, 'rendering has no side effects on the model')
+    for rf, tw, k0 in twins:
+        k = g.emit(Op(84, rf, tw))
+        sc.same(k, k0, 'rendering does not change how an element compares with an identical twin')
     r.shuffle(seq)
     for e, code in seq[:max(4, len(seq) // 2)]:
         k = g.emit(Op(code, e))
         sc.same(k, first[(e, code)], 'evaluating a rendering again gives the same text')
+    # configured renderers: an attached top-level element or column renders through the database's classes
+    KIND = {}
+    for t_ in info['tables']:
+        KIND[t_] = 1
+        for c_ in info['columns'][t_]:
+            KIND[c_] = 2
+    for x_ in info['refs']:
+        KIND[x_] = 4
+    for x_ in info['enums']:
+        KIND[x_] = 5
+    for x_ in info['stickies']:
+        KIND[x_] = 8
+    for x_ in info['groups']:
+        KIND[x_] = 11
+    if info['project'] is not None:
+        KIND[info['project']] = 10
+    for (e, code), idx in list(first.items()):
+        if e not in KIND:
+            continue
+        rn = sqlr if code == 80 else dbmlr
+        if rn >= 2:
+            hs = dict(rdefs[rn - 2][0])
+            h_ = hs.get(KIND[e])
+            added = info['added'].get(e) if KIND[e] != 2 else next((info['added'].get(t_) for t_ in info['tables'] if e in info['columns'][t_]), None)
+            if KIND[e] in (8, 10, 11) and code == 80:
+                continue      # DBML-only classes have no .sql
+            if h_ is None:
+                sc.expect.append((idx, 'eq_if_added', ('ok s', added), 'an element type the configured renderer has no handler for renders as an empty string'))
+            elif h_[0] == 'const':
+                sc.expect.append((idx, 'eq_if_added', ('ok ' + hexs(h_[1]), added), 'an attached element renders through the configured renderer class'))
     # default renderers: database text is the join of the element texts
     if dbmlr == 1:
         parts = ([info['project']] if info['project'] is not None else []) + info['enums'] + info['tables'] \
@@ -186,6 +232,18 @@ def rebuild_and_compare(sc):
     except Exception as e:   # noqa
         return []          # the final content cannot be built afresh (e.g. two tables renamed to one name): nothing to compare
     fails = []
+    # (b) the same construction and edits, replayed in a fresh interpreter without any intermediate rendering
+    first_obs = min(i for _, _, i in sc.obs)
+    it2 = pyscript.Interp(sc.rdefs)
+    for i, op in enumerate(sc.g.ops):
+        if i < first_obs and op.code in (78, 80, 81, 82):
+            it2.slots.append(None)
+            continue
+        t2, o2 = it2.run_op(op)
+        it2.slots.append(o2)
+        if i >= first_obs and t2 != outs[i]:
+            fails.append(('replay-without-earlier-renderings', repr(op), outs[i][:600], t2[:600]))
+            break
     for slot, kind, idx in sc.obs:
         obj = it.slots[slot]
         twin = mapping.get(id(obj))
@@ -226,6 +284,12 @@ def run(v, tier, st, pr, pid):
             if kind == 'eq':
                 ok = (got == payload)
                 detail = 'got %s' % got[:200]
+            elif kind == 'eq_if_added':
+                want, added = payload
+                if added is None or il[added] != 'obj':
+                    continue
+                ok = (got == want)
+                detail = 'got %s want %s' % (got[:200], want[:200])
             elif kind == 'same':
                 a, b = got, il[payload]
                 if a.startswith('ok slots='):
